@@ -84,6 +84,7 @@ Proj(k) == LET s == obj[k] IN
      rev   |-> RevSeq(s),               \* rbegin()..rend()
      nblk  |-> NBlk(Len(s), w),         \* block_count()
      blk   |-> Limbs(s, w),             \* data(): unused bits of the last block are zero
+     bit   |-> Limbs(s, w),             \* block_begin()..block_end(): the same blocks
      count |-> Count(s),
      any   |-> \E i \in 1..Len(s) : s[i] = 1,
      all   |-> \A i \in 1..Len(s) : s[i] = 1,
@@ -116,7 +117,22 @@ CtorN(k, n)           == Do("CtorN", k, [n |-> n], Fill(n, 0), "own", Void)
 CtorNV(k, n, v)       == Do("CtorNV", k, [n |-> n, v |-> v], Fill(n, v), "own", Void)
 CtorIL(k, bits)       == Do("CtorIL", k, [bits |-> bits], bits, "own", Void)
 CtorBlocks(k, blocks) == Do("CtorBlocks", k, [blocks |-> blocks], Unpack(blocks, w), "own", Void)
+CtorAlloc(k)          == Do("CtorAlloc", k, NoArg, <<>>, "own", Void)       \* explicit xdynamic_bitset(const allocator_type&)
 CtorCopy(k)           == Do("CtorCopy", k, NoArg, obj[Other(k)], "own", Void)
+(* Move construction / move assignment from the other (owning) object.  The target holds  *)
+(* what the source held.  The moved-from object must stay a valid bitset, but which one is *)
+(* not specified: `left` is whatever sequence it is observed to hold afterwards (every      *)
+(* observer must then be consistent with `left`, which the projection comparison decides). *)
+(* re = 1: the harness destroys the source and default-constructs it again at once.         *)
+DoMove(op, k, re, left) ==
+    /\ Own(1) /\ Own(2)
+    /\ re \in {0, 1} /\ (re = 1 => left = <<>>)
+    /\ pre'  = [obj |-> obj, kind |-> kind]
+    /\ obj'  = IF k = 1 THEN <<obj[2], left>> ELSE <<left, obj[1]>>
+    /\ UNCHANGED <<kind, w>>
+    /\ last' = [op |-> op, k |-> k, a |-> [re |-> re], res |-> Void]
+CtorMove(k, re, left)   == DoMove("CtorMove", k, re, left)
+MoveAssign(k, re, left) == DoMove("MoveAssign", k, re, left)
 (* A view over caller memory holding `blocks`, covering n bits: exactly      *)
 (* NBlk(n) blocks; the bits it covers are those of the caller's memory.      *)
 CtorView(k, blocks, n) ==
@@ -127,7 +143,10 @@ CtorView(k, blocks, n) ==
 AssignNV(k, n, v)       == Own(k) /\ Mut("AssignNV", k, [n |-> n, v |-> v], Fill(n, v), Void)
 AssignIL(k, bits)       == Own(k) /\ Mut("AssignIL", k, [bits |-> bits], bits, Void)
 AssignBlocks(k, blocks) == Own(k) /\ Mut("AssignBlocks", k, [blocks |-> blocks], Unpack(blocks, w), Void)
-CopyAssign(k)           == Own(k) /\ Mut("CopyAssign", k, NoArg, obj[Other(k)], Void)
+(* sf = 1: the right-hand side is the object itself (a = a) *)
+Src(k, sf)              == IF sf = 1 THEN k ELSE Other(k)
+SelfArg(sf)             == [self |-> sf]
+CopyAssign(k, sf)       == Own(k) /\ sf \in {0, 1} /\ Mut("CopyAssign", k, SelfArg(sf), obj[Src(k, sf)], Void)
 
 (* Size changes *)
 Resize(k, n, v) == Own(k) /\ Mut("Resize", k, [n |-> n, v |-> v], ResizeSeq(obj[k], n, v), Void)
@@ -135,6 +154,11 @@ Resize1(k, n)   == Own(k) /\ Mut("Resize1", k, [n |-> n], ResizeSeq(obj[k], n, 0
 ResizeView(k, n) == /\ kind[k] = "view"
                     /\ Obs("ResizeView", k, [n |-> n], IF n = Len(obj[k]) THEN Void ELSE Exc("runtime_error"))
 Clear(k)        == Own(k) /\ Mut("Clear", k, NoArg, <<>>, Void)
+(* reserve(n) changes no observable but capacity(): afterwards capacity() >= n and >= size(). *)
+(* cap is the capacity the call left (any conforming value); values >= 2^30 are logged as 2^30 *)
+Clip30(x)       == IF x > 1073741824 THEN 1073741824 ELSE x
+Reserve(k, n, cap) == Own(k) /\ cap >= Clip30(n) /\ cap >= Len(obj[k]) /\ Obs("Reserve", k, [n |-> n], Ok(<<cap>>))
+MaxSize(k, m)   == Own(k) /\ m >= Len(obj[k]) /\ Obs("MaxSize", k, NoArg, Ok(<<m>>))
 PushBack(k, v)  == Own(k) /\ Mut("PushBack", k, [v |-> v], Append(obj[k], v), Void)
 PopBack(k)      == Own(k) /\ Len(obj[k]) > 0 /\ Mut("PopBack", k, NoArg, SubSeq(obj[k], 1, Len(obj[k]) - 1), Void)
 
@@ -151,34 +175,45 @@ Flip(k, i)   == i < Len(obj[k]) /\ Mut("Flip", k, [i |-> i], SetBit(obj[k], i, 1
 ShlEq(k, p) == Mut("ShlEq", k, [p |-> p], ShlSeq(obj[k], p), Void)
 ShrEq(k, p) == Mut("ShrEq", k, [p |-> p], ShrSeq(obj[k], p), Void)
 
-(* Bitwise compound assignment with the other object (same size is the C++ precondition) *)
+(* Bitwise compound assignment with the other object, or with the object itself (sf = 1); *)
+(* equal sizes are the C++ precondition.  The operand may be an owning bitset or a view.  *)
 SameSize(k) == Len(obj[k]) = Len(obj[Other(k)])
-AndEq(k) == SameSize(k) /\ Mut("AndEq", k, NoArg, AndSeq(obj[k], obj[Other(k)]), Void)
-OrEq(k)  == SameSize(k) /\ Mut("OrEq", k, NoArg, OrSeq(obj[k], obj[Other(k)]), Void)
-XorEq(k) == SameSize(k) /\ Mut("XorEq", k, NoArg, XorSeq(obj[k], obj[Other(k)]), Void)
+BinOK(k, sf) == sf \in {0, 1} /\ (sf = 0 => SameSize(k))
+AndEq(k, sf) == BinOK(k, sf) /\ Mut("AndEq", k, SelfArg(sf), AndSeq(obj[k], obj[Src(k, sf)]), Void)
+OrEq(k, sf)  == BinOK(k, sf) /\ Mut("OrEq", k, SelfArg(sf), OrSeq(obj[k], obj[Src(k, sf)]), Void)
+XorEq(k, sf) == BinOK(k, sf) /\ Mut("XorEq", k, SelfArg(sf), XorSeq(obj[k], obj[Src(k, sf)]), Void)
 
 (* Operators returning a new bitset; operands unchanged *)
 Not(k)    == Obs("Not", k, NoArg, Ok(BitsVal(NotSeq(obj[k]))))
-And(k)    == SameSize(k) /\ Obs("And", k, NoArg, Ok(BitsVal(AndSeq(obj[k], obj[Other(k)]))))
-Or(k)     == SameSize(k) /\ Obs("Or", k, NoArg, Ok(BitsVal(OrSeq(obj[k], obj[Other(k)]))))
-Xor(k)    == SameSize(k) /\ Obs("Xor", k, NoArg, Ok(BitsVal(XorSeq(obj[k], obj[Other(k)]))))
+And(k, sf) == BinOK(k, sf) /\ Obs("And", k, SelfArg(sf), Ok(BitsVal(AndSeq(obj[k], obj[Src(k, sf)]))))
+Or(k, sf)  == BinOK(k, sf) /\ Obs("Or", k, SelfArg(sf), Ok(BitsVal(OrSeq(obj[k], obj[Src(k, sf)]))))
+Xor(k, sf) == BinOK(k, sf) /\ Obs("Xor", k, SelfArg(sf), Ok(BitsVal(XorSeq(obj[k], obj[Src(k, sf)]))))
 Shl(k, p) == Obs("Shl", k, [p |-> p], Ok(BitsVal(ShlSeq(obj[k], p))))
 Shr(k, p) == Obs("Shr", k, [p |-> p], Ok(BitsVal(ShrSeq(obj[k], p))))
 
-(* swap of two owning bitsets *)
-Swap(k) ==
-    /\ Own(1) /\ Own(2)
+(* swap: member swap of two owning bitsets or of two views (the views exchange the memory   *)
+(* they refer to), std::swap / ADL swap of two owning bitsets (three moves), a.swap(a).     *)
+SwapHows == {"member", "std", "adl"}
+Swap(k, how, sf) ==
+    LET o == Src(k, sf) IN
+    /\ how \in SwapHows /\ sf \in {0, 1}
+    /\ kind[k] = kind[o]
+    /\ (kind[k] = "view" \/ sf = 1) => how = "member"
     /\ pre' = [obj |-> obj, kind |-> kind]
-    /\ obj' = <<obj[2], obj[1]>>
+    /\ obj' = IF o = k THEN obj ELSE <<obj[2], obj[1]>>
     /\ UNCHANGED <<kind, w>>
-    /\ last' = [op |-> "Swap", k |-> k, a |-> NoArg, res |-> Void]
+    /\ last' = [op |-> "Swap", k |-> k, a |-> [how |-> how, self |-> sf], res |-> Void]
 
 (* Checked access: throws exactly when i >= size() *)
-At(k, i) == Obs("At", k, [i |-> i],
-                IF i < Len(obj[k]) THEN Ok(<<obj[k][i + 1]>>) ELSE Exc("out_of_range"))
+(* c: "c" the const overload, "m" the non-const one (its reference is converted to bool) *)
+At(k, c, i) == c \in {"c", "m"} /\
+               Obs("At", k, [c |-> c, i |-> i],
+                   IF i < Len(obj[k]) THEN Ok(<<obj[k][i + 1]>>) ELSE Exc("out_of_range"))
 
 (* Reads through every access path.  "neg" is operator~ of the element reference. *)
-ReadPaths == {"cindex", "index", "at", "cat", "front", "cfront", "back", "cback", "iter", "citer", "riter", "criter", "neg"}
+(* "data"/"cdata": bit i of data()[i / W] through the non-const / const overload; "blockit": of *(block_begin() + i / W) *)
+ReadPaths == {"cindex", "index", "at", "cat", "front", "cfront", "back", "cback", "iter", "citer", "riter", "criter", "neg",
+              "data", "cdata", "blockit"}
 PathIndexOK(k, path, i) ==
     /\ i < Len(obj[k])
     /\ path \in {"front", "cfront"} => i = 0
@@ -190,9 +225,9 @@ Read(k, path, i) ==
            Ok(<<IF path = "neg" THEN 1 - obj[k][i + 1] ELSE obj[k][i + 1]>>))
 
 (* Writes through element references and iterators.                         *)
-(* wk: "assign" v | "and" v | "or" v | "xor" v | "flip" | "aref" j (a[i] = a[j]) *)
+(* wk: "assign" v | "and" v | "or" v | "xor" v | "flip" | "aref" j (a[i] = a[j]) | "ptr" v (through &ref) *)
 WritePaths == {"index", "at", "front", "back", "iter", "riter"}
-WriteKinds == {"assign", "and", "or", "xor", "flip", "aref"}
+WriteKinds == {"assign", "and", "or", "xor", "flip", "aref", "ptr"}
 Written(old, wk, v, src) ==
     CASE wk = "assign" -> v
       [] wk = "and"    -> BAnd(old, v)
@@ -200,12 +235,18 @@ Written(old, wk, v, src) ==
       [] wk = "xor"    -> BXor(old, v)
       [] wk = "flip"   -> 1 - old
       [] wk = "aref"   -> src
+      [] wk = "ptr"    -> v
 RefWrite(k, path, i, wk, v, j) ==
     /\ path \in WritePaths /\ wk \in WriteKinds
     /\ PathIndexOK(k, path, i)
     /\ j < Len(obj[k])
     /\ Mut("RefWrite", k, [path |-> path, i |-> i, wk |-> wk, v |-> v, j |-> j],
            SetBit(obj[k], i, Written(obj[k][i + 1], wk, v, obj[k][j + 1])), Void)
+
+(* std::fill(begin() + i, begin() + j, v): a run of iterator writes *)
+Fill2(k, i, j, v) ==
+    /\ i <= j /\ j <= Len(obj[k])
+    /\ Mut("Fill", k, [i |-> i, j |-> j, v |-> v], [m \in 1..Len(obj[k]) |-> IF m > i /\ m <= j THEN v ELSE obj[k][m]], Void)
 
 ----------------------------------------------------------------------------
 (* Bounded argument domains for the model checker *)
@@ -226,22 +267,30 @@ Init ==
 
 C(c) == c \in Classes
 NextT(k) ==
-    \/ C("ctor") /\ CtorDefault(k)
+    \/ C("ctor") /\ (CtorDefault(k) \/ CtorAlloc(k))
     \/ C("ctor") /\ \E n \in Sizes : CtorN(k, n)
     \/ C("size") /\ \E n \in Sizes : Resize1(k, n) \/ ResizeView(k, n)
     \/ C("ctor") /\ \E n \in Sizes, v \in Bit : CtorNV(k, n, v) \/ AssignNV(k, n, v)
     \/ C("size") /\ \E n \in Sizes, v \in Bit : Resize(k, n, v)
     \/ (C("ctor") \/ C("il")) /\ \E b \in ILArgs : CtorIL(k, b) \/ AssignIL(k, b)
+    \/ C("il0") /\ obj[k] = <<>> /\ kind[k] = "own" /\ \E b \in ILArgs : CtorIL(k, b)     \* navigation only: from the empty bitset
     \/ C("ctor") /\ \E bl \in BlockSeqs(w, MaxBits \div w) : CtorBlocks(k, bl) \/ AssignBlocks(k, bl)
     \/ C("view") /\ \E bl \in BlockSeqs(w, MaxBlk), n \in Sizes : CtorView(k, bl, n)
-    \/ C("pair") /\ (CtorCopy(k) \/ CopyAssign(k) \/ Swap(k))
+    \/ (C("pair") \/ C("copy")) /\ (CtorCopy(k) \/ \E sf \in {0, 1} : CopyAssign(k, sf))
+    \/ C("pair") /\ \E how \in SwapHows, sf \in {0, 1} : Swap(k, how, sf)
+    \/ (C("move") \/ C("move1")) /\ \E re \in (IF C("move") THEN {0, 1} ELSE {1}), left \in {<<>>, obj[Other(k)]} :
+           CtorMove(k, re, left) \/ MoveAssign(k, re, left)
+    \/ C("cap") /\ \E n \in Sizes \cup {MaxBits + w} :
+           Reserve(k, n, IF n > Len(obj[k]) THEN n ELSE Len(obj[k]))
+    \/ C("cap") /\ MaxSize(k, MaxBits)
     \/ C("size") /\ Clear(k)
     \/ C("push") /\ (PopBack(k) \/ \E v \in Bit : PushBack(k, v))
     \/ C("bit") /\ (SetAll(k) \/ ResetAll(k) \/ FlipAll(k) \/ Not(k))
     \/ C("bit") /\ \E i \in Idx(k) : Set1(k, i) \/ Reset(k, i) \/ Flip(k, i) \/ (\E v \in Bit : Set(k, i, v))
     \/ C("shift") /\ \E p \in 0..MaxShift : ShlEq(k, p) \/ ShrEq(k, p) \/ Shl(k, p) \/ Shr(k, p)
-    \/ C("binary") /\ (AndEq(k) \/ OrEq(k) \/ XorEq(k) \/ And(k) \/ Or(k) \/ Xor(k))
-    \/ C("at") /\ \E i \in 0..(NBlk(MaxBits, w) * w + 1) : At(k, i)
+    \/ C("binary") /\ \E sf \in {0, 1} : AndEq(k, sf) \/ OrEq(k, sf) \/ XorEq(k, sf) \/ And(k, sf) \/ Or(k, sf) \/ Xor(k, sf)
+    \/ C("fill") /\ \E i \in 0..Len(obj[k]), j \in 0..Len(obj[k]), v \in Bit : Fill2(k, i, j, v)
+    \/ C("at") /\ \E i \in 0..(NBlk(MaxBits, w) * w + 1), c \in {"c", "m"} : At(k, c, i)
     \/ C("read") /\ \E i \in Idx(k), path \in ReadPaths : Read(k, path, i)
     \/ C("write") /\ \E i \in Idx(k), path \in WritePaths, wk \in WriteKinds, v \in Bit, j \in Idx(k) :
            /\ (wk \in {"flip", "aref"} => v = 0)
@@ -253,7 +302,9 @@ NextT(k) ==
            /\ (path # "index" => wk \in {"assign", "flip"})
            /\ RefWrite(k, path, i, wk, v, j)
 
-NextO(k) == \E b \in OtherInit : CtorIL(k, b)
+(* the non-target object is given a content directly, as an owning bitset or (class "otherview") as a view *)
+NextO(k) == /\ C("other0") => obj[k] = <<>>       \* (navigation only: the content is given once)
+            /\ \E b \in OtherInit : CtorIL(k, b) \/ (C("otherview") /\ CtorView(k, Limbs(b, w), Len(b)))
 
 Next == (\E k \in Targets : NextT(k)) \/ (\E k \in {1, 2} \ Targets : NextO(k))
 
@@ -293,8 +344,14 @@ Laws == \A k \in {1, 2} : LET s == obj[k] IN
     /\ XorSeq(s, s) = Fill(Len(s), 0) /\ AndSeq(s, s) = s /\ OrSeq(s, NotSeq(s)) = Fill(Len(s), 1)
 
 (* observers never change the abstract state; views never change size *)
-ObserverOps == {"At", "Read", "Not", "And", "Or", "Xor", "Shl", "Shr", "ResizeView"}
+ObserverOps == {"At", "Read", "Not", "And", "Or", "Xor", "Shl", "Shr", "ResizeView", "Reserve", "MaxSize"}
 ObserversPure == [][last'.op \in ObserverOps => obj' = obj /\ kind' = kind]_vars
-ViewSizeFixed == [][\A k \in {1, 2} : (kind[k] = "view" /\ kind'[k] = "view" /\ last'.op # "CtorView") => Len(obj'[k]) = Len(obj[k])]_vars
+ViewSizeFixed == [][\A k \in {1, 2} : (kind[k] = "view" /\ kind'[k] = "view" /\ last'.op \notin {"CtorView", "Swap"}) => Len(obj'[k]) = Len(obj[k])]_vars
 FailedChangesNothing == [][last'.res.exc # "none" => obj' = obj /\ kind' = kind]_vars
+(* a move leaves the target with exactly what the source held; a swap exchanges, twice is the identity *)
+MoveLaw == [][last'.op \in {"CtorMove", "MoveAssign"} => obj'[last'.k] = obj[Other(last'.k)]]_vars
+SwapLaw == [][last'.op = "Swap" => (obj'[1] = obj[2] /\ obj'[2] = obj[1]) \/ (last'.a.self = 1 /\ obj' = obj)]_vars
+(* self-application: a &= a, a |= a, a = a change nothing, a ^= a clears *)
+SelfLaw == [][(last'.op \in {"AndEq", "OrEq", "CopyAssign"} /\ last'.a.self = 1 => obj' = obj)
+              /\ (last'.op = "XorEq" /\ last'.a.self = 1 => obj'[last'.k] = Fill(Len(obj[last'.k]), 0))]_vars
 =============================================================================
